@@ -36,6 +36,22 @@ def hmm_template(rng, tid):
     return {"id": tid, "vars": vs, "dom": dom, "cpd0": cpd0, "cpd1": cpd1, "regular": True, "inter": {"v0": ["v0"], "v1": [], "v2": []}}
 
 
+def fam3_template(rng, tid):
+    """v3 has the three intra-slice parents v0, v1, v2 (edges inserted in that order, CPD evidence in a ROTATED order) and v0 persists;
+    used for the initialize_initial_state / get_constant_bn clauses only"""
+    vs = ["v0", "v1", "v2", "v3"]
+    dom = {v: ["s0", "s1"] for v in vs}
+    rot = rng.choice([["v1", "v2", "v0"], ["v2", "v0", "v1"]])
+    cpd0 = {v: {"parents": [], "den": 10, "tab": _cols(rng, 2, 1)} for v in vs[:3]}
+    cpd0["v3"] = {"parents": rot, "den": 10, "tab": _cols(rng, 2, 8)}
+    cpd1 = {"v0": {"parents": [["v0", 0]], "den": 10, "tab": _cols(rng, 2, 2)},
+            "v1": {"parents": [], "den": 10, "tab": cpd0["v1"]["tab"]},
+            "v2": {"parents": [], "den": 10, "tab": cpd0["v2"]["tab"]},
+            "v3": {"parents": [[p, 1] for p in rot], "den": 10, "tab": cpd0["v3"]["tab"]}}
+    return {"id": tid, "vars": vs, "dom": dom, "cpd0": cpd0, "cpd1": cpd1, "regular": True, "inter": {"v0": ["v0"], "v1": [], "v2": [], "v3": []},
+            "edge_order": [["v0", "v3"], ["v1", "v3"], ["v2", "v3"]]}
+
+
 def make_templates(rng, n, max_vars=3, ternary=False, regular=True):
     """regular = the region in which the interface algorithm as coded is meant to work: every variable takes part in an
     intra-slice edge (when there are >= 2 variables) and inter-slice edges are persistence edges v(t) -> v(t+1) of a
@@ -127,7 +143,8 @@ def run(ctx):
     pl = []
     for hs in hseeds:
         for j, g in enumerate(chunks(sorted(by), 8)):
-            pl.append((hs, {"tmpls": [t for t in tm if t["id"] in g], "cases": [c for k in g for c in by[k]], "seed": ctx.seed * 100 + hs * 8 + j}))
+            pl.append((hs, {"tmpls": [t for t in tm if t["id"] in g], "cases": [c for k in g for c in by[k]], "seed": ctx.seed * 100 + hs * 8 + j,
+                            "init_only": [fam3_template(random.Random(ctx.seed * 31 + hs * 8 + j + q), 900 + q) for q in range(4)] if j == 0 else []}))
     for res in run_workers(ctx, "c17", "replay_gen", pl):
         ctx.traces += res["n"]
         ctx.evaluations += res["calls"]
@@ -137,7 +154,8 @@ def run(ctx):
 
 def replay(ctx, rec):
     c = rec["case"]
-    res = run_workers(ctx, "c17", "replay_gen", [(c["hashseed"], {"tmpls": [c["tmpl"]], "cases": c["cases"], "seed": c["seed"]})])[0]
+    res = run_workers(ctx, "c17", "replay_gen", [(c["hashseed"], {"tmpls": [c["tmpl"]], "cases": c["cases"], "seed": c["seed"],
+                                                                 "init_only": [c["tmpl"]] if c.get("init_only") else []})])[0]
     return res["fails"][:1] or None
 
 
@@ -189,6 +207,52 @@ def build_dbn(t, rng, all_cpds=True):
     return dbn
 
 
+def init_checks(t, rng, fail):
+    """initialize_initial_state copies CPDs to the other slice unaltered; get_constant_bn exposes the template's CPDs (by NAMED parents)"""
+    import numpy as np
+    ncalls = 0
+    # ---- initialize_initial_state copies CPDs unchanged; get_constant_bn exposes the template's CPDs
+    try:
+        d2 = build_dbn(t, rng, False)
+        d2.initialize_initial_state()
+        ncalls += 1
+        for v in t["vars"]:
+            c1 = t["cpd1"][v]
+            got = d2.get_cpds((v, 1))
+            want = np.array(c1["tab"], dtype=float) / c1["den"]
+            # compare by named parent order: the copy must describe the same conditional
+            gp = [(p[0], p[1]) for p in got.variables[1:]]
+            wp = [(p, dt) for p, dt in c1["parents"]]
+            if sorted(gp) != sorted(wp):
+                fail("DynamicBayesianNetwork.initialize_initial_state", "copied_cpd_parents", [list(map(str, gp))], wp)
+                break
+            perm = [gp.index(p) for p in wp]
+            vals = np.asarray(got.values)
+            vals = np.transpose(vals, [0] + [1 + i for i in perm]).reshape(want.shape)
+            if not (np.abs(vals - want).max() <= 1e-9):
+                fail("DynamicBayesianNetwork.initialize_initial_state", "copied_cpd_values", vals.tolist(), want.tolist())
+                break
+        bn = d2.get_constant_bn()
+        ncalls += 1
+        for v in t["vars"]:
+            for sl, c in ((0, t["cpd0"][v]), (1, t["cpd1"][v])):
+                got = bn.get_cpds(f"{v}_{sl}")
+                want = np.array(c["tab"], dtype=float) / c["den"]
+                gp = list(got.variables[1:])
+                wp = [f"{p}_0" for p in c["parents"]] if sl == 0 else [f"{p}_{dt}" for p, dt in c["parents"]]
+                if sorted(gp) != sorted(wp):
+                    fail("DynamicBayesianNetwork.get_constant_bn", "cpd_parents", gp, wp)
+                    break
+                perm = [gp.index(p) for p in wp]
+                vals = np.transpose(np.asarray(got.values), [0] + [1 + i for i in perm]).reshape(want.shape)
+                if not (np.abs(vals - want).max() <= 1e-9):
+                    fail("DynamicBayesianNetwork.get_constant_bn", "cpd_values", None)
+                    break
+    except Exception as ex:  # noqa
+        fail("DynamicBayesianNetwork.initialize_initial_state", "raises", repr(ex)[:300], None, regular=t.get("regular", True))
+    return ncalls
+
+
 def replay_gen(payload):
     import numpy as np
     from pgmpy.inference import DBNInference
@@ -198,6 +262,13 @@ def replay_gen(payload):
     fails, ncalls = [], 0
     eng = {}
     single_ok = {}
+    for tx in payload.get("init_only", []):
+        # templates used for the copy / constant-network clauses only (a node with THREE intra-slice parents; no inference enumeration:
+        # their unrolled networks are beyond the exact 32-bit weights of Gen_C17)
+        def fail_x(api, clause, obs, exp=None, tx=tx, **feat):
+            fails.append({"api": api, "clause": clause, "features": dict(feat, three_parents=True),
+                          "case": {"tmpl": tx, "cases": [], "seed": payload["seed"], "hashseed": hs, "init_only": True}, "observed": obs, "expected": exp})
+        ncalls += init_checks(tx, rng, fail_x)
     for ci, case in enumerate(payload["cases"]):
         t = tm[case["tmpl"]]
 
@@ -212,45 +283,7 @@ def replay_gen(payload):
             except Exception as ex:  # noqa
                 eng[t["id"]] = None
                 fail("DBNInference", "construction_raises", repr(ex)[:300], None, regular=t.get("regular", True))
-            # ---- initialize_initial_state copies CPDs unchanged; get_constant_bn exposes the template's CPDs
-            try:
-                d2 = build_dbn(t, rng, False)
-                d2.initialize_initial_state()
-                ncalls += 1
-                for v in t["vars"]:
-                    c1 = t["cpd1"][v]
-                    got = d2.get_cpds((v, 1))
-                    want = np.array(c1["tab"], dtype=float) / c1["den"]
-                    # compare by named parent order: the copy must describe the same conditional
-                    gp = [(p[0], p[1]) for p in got.variables[1:]]
-                    wp = [(p, dt) for p, dt in c1["parents"]]
-                    if sorted(gp) != sorted(wp):
-                        fail("DynamicBayesianNetwork.initialize_initial_state", "copied_cpd_parents", [list(map(str, gp))], wp)
-                        break
-                    perm = [gp.index(p) for p in wp]
-                    vals = np.asarray(got.values)
-                    vals = np.transpose(vals, [0] + [1 + i for i in perm]).reshape(want.shape)
-                    if not (np.abs(vals - want).max() <= 1e-9):
-                        fail("DynamicBayesianNetwork.initialize_initial_state", "copied_cpd_values", vals.tolist(), want.tolist())
-                        break
-                bn = d2.get_constant_bn()
-                ncalls += 1
-                for v in t["vars"]:
-                    for sl, c in ((0, t["cpd0"][v]), (1, t["cpd1"][v])):
-                        got = bn.get_cpds(f"{v}_{sl}")
-                        want = np.array(c["tab"], dtype=float) / c["den"]
-                        gp = list(got.variables[1:])
-                        wp = [f"{p}_0" for p in c["parents"]] if sl == 0 else [f"{p}_{dt}" for p, dt in c["parents"]]
-                        if sorted(gp) != sorted(wp):
-                            fail("DynamicBayesianNetwork.get_constant_bn", "cpd_parents", gp, wp)
-                            break
-                        perm = [gp.index(p) for p in wp]
-                        vals = np.transpose(np.asarray(got.values), [0] + [1 + i for i in perm]).reshape(want.shape)
-                        if not (np.abs(vals - want).max() <= 1e-9):
-                            fail("DynamicBayesianNetwork.get_constant_bn", "cpd_values", None)
-                            break
-            except Exception as ex:  # noqa
-                fail("DynamicBayesianNetwork.initialize_initial_state", "raises", repr(ex)[:300], None, regular=t.get("regular", True))
+            ncalls += init_checks(t, rng, fail)
         if eng[t["id"]] is None:
             continue
         dbn, inf = eng[t["id"]]
